@@ -15,7 +15,7 @@ from .core import (
     BOOL,
     INT,
     KIND_SORT,
-    LSTR,
+    QSTR,
     PYVAL,
     SV,
     EngineError,
@@ -150,7 +150,7 @@ class World:
         self.cols[name] = term
 
     def havoc(self, name):
-        self.set(name, self.ctx.fresh_term(self.sorts[name], name + "'"))
+        self.set(name, self.ctx.fresh_term(self.sorts[name], name + "_h"))
 
     def columns_under(self, prefix):
         return [n for n in self.cols if n == prefix or n.startswith(prefix + ".")]
@@ -170,7 +170,7 @@ def declare_dict(world, prefix, spec, depth):
             if isinstance(fs, Scalar):
                 world.declare(f"{prefix}.{fname}", nested_sort(d, KIND_SORT[fs.kind]))
             elif isinstance(fs, Deque):
-                world.declare(f"{prefix}.{fname}", nested_sort(d, LSTR))
+                world.declare(f"{prefix}.{fname}", nested_sort(d, QSTR))
             else:
                 declare_dict(world, f"{prefix}.{fname}", fs, d)
 
